@@ -3,7 +3,7 @@
    bit, width) triple; 8/16-bit writes replace their field, 32-bit writes
    zero-extend, 64-bit writes replace the cell. *)
 From Coq Require Import ZArith Bool List.
-From AxV Require Import Bits Codes Iced State BitsP.
+From AxV Require Import Bits Outcome Codes Iced State BitsP.
 Local Open Scope Z_scope.
 
 Definition view_width (r : reg) : Z :=
@@ -25,3 +25,30 @@ Definition rf_write (f : reg -> Z) (r : reg) (v : Z) : reg -> Z :=
                else set_field (f q) v (view_lo r) (view_width r))
   | None => f
   end.
+
+(* ---- histories of register-API calls and their specification ---- *)
+Inductive rop := RW (bits : Z) (r : reg) (v : Z) | RR (bits : Z) (r : reg).
+
+Definition rop_wf (o : rop) : Prop :=
+  match o with
+  | RW bits r v => In r all_views /\ In bits (8 :: 16 :: 32 :: 64 :: nil) /\ 0 <= v < 2 ^ 64
+  | RR bits r => In r all_views /\ In bits (8 :: 16 :: 32 :: 64 :: nil)
+  end.
+
+
+Definition spec_rop (o : rop) (f : reg -> Z) : outcome Z * (reg -> Z) :=
+  match o with
+  | RW bits r v =>
+      if (view_width r =? bits) && (v <? 2 ^ bits) then (Ok 0, rf_write f r v) else (Err EFatal, f)
+  | RR bits r =>
+      if view_width r =? bits then (Ok (rf_read f r), f) else (Err EFatal, f)
+  end.
+
+
+Fixpoint run_spec (ops : list rop) (f : reg -> Z) : list (outcome Z) * (reg -> Z) :=
+  match ops with
+  | nil => (nil, f)
+  | o :: ops' => let '(r, f1) := spec_rop o f in
+                 let '(rs, f2) := run_spec ops' f1 in (r :: rs, f2)
+  end.
+
